@@ -1468,6 +1468,24 @@ def gen_C13(tier, seed):
         p.frame(lf, 'FR', [idx, oth], index_type=EN('FrameIndexType', 'BOREHOLE_DEPTH'))
         p.write(1, route='none' if route == 'inline' else route, data_arrays=arrs, **({'from': 1, 'to': 4} if i >= 4 else {}))
         progs.append(p.build())
+    # the user pins, after a write, the very value that write had derived (DIRECTION 'INCREASING' as a literal, INDEX-MIN as the float read
+    # back from the attribute); the next write has other data: the user's value is written unchanged
+    for i in range(4):
+        p = Prog(f'C13-pinsame-{i}', {'kind': 'pinsame'})
+        lf, _ = base_lf(p)
+        up, down = np.array([1, 2, 4, 8, 16], dtype='float64'), np.array([90, 80, 60, 30, 10], dtype='float64')
+        idx, oth = p.channel(lf, 'INDEX'), p.channel(lf, 'OTHER')
+        fr = p.frame(lf, 'FR', [idx, oth], index_type=EN('FrameIndexType', 'BOREHOLE_DEPTH'))
+        first, second = (up, down) if i % 2 == 0 else (down, up)
+        o1 = p.array(rand_array(rng, 'int16', 5))
+        p.write(1, route='dict', data_arrays={idx: p.array(first), oth: o1}, fname='w1.dlis')
+        if i < 2:
+            p.set(fr, 'direction', S('INCREASING' if i % 2 == 0 else 'DECREASING'))
+        else:
+            p.set(fr, 'index_min', F(float(first.min())))
+            p.set(fr, 'index_max', F(float(first.max())))
+        p.write(1, route='dict', data_arrays={idx: p.array(second), oth: o1}, fname='w2.dlis')
+        progs.append(p.build())
     # the caller changes its inline arrays in place between two writes (same window): the statistics are those of the rows written
     for i in range(4 if tier == 'quick' else 16):
         p = Prog(f'C13-inplace-{i}', {'kind': 'inplace'})
